@@ -162,7 +162,7 @@ def _none_t(x):
     """the type term means NoneType (seen through NewType / PEP 695 alias / Final / Annotated wrappers)"""
     while isinstance(x, list) and x and x[0] in ("newtype", "alias695"):
         x = x[2]
-    while isinstance(x, list) and x and x[0] in ("final", "annotated"):
+    while isinstance(x, list) and x and x[0] in ("final", "annotated", "opt"):      # Optional[None] IS NoneType
         x = x[1]
     return x == ["none"]
 
